@@ -1,6 +1,7 @@
 package props
 
 import (
+	"bytes"
 	"os/exec"
 	"crypto/sha256"
 	"encoding/json"
@@ -148,7 +149,7 @@ func c19Case(c *core.C) {
 	if !unprivPreflight(c) {
 		return
 	}
-	base, err := os.MkdirTemp(os.Getenv("VCHECK_SCRATCH"), "c19-")
+	base, err := scratchBase(c, "c19-", c.K%4 == 3)
 	if err != nil {
 		c.Violatef("harness-scratch", nil, "no scratch dir: %v", err)
 		return
@@ -454,6 +455,26 @@ func c19Case(c *core.C) {
 			fail("retrieve-shape:"+o.kind, "%s: Retrieve returned %s", ctx, o.kind)
 			restore()
 			return
+		}
+		// a damaged entry is still an existing entry: a no-clobber store must refuse and leave its bytes alone
+		if f.name != "chmod-000" && f.name != "directory-in-place" {
+			before, _ := os.ReadFile(ent)
+			nd := c19Doc(r, victim)
+			nb, _ := proto.Marshal(nd)
+			so := runChild(true, "storeone", "-dir", store, "-docfile", putFile(nb), "-noclobber")
+			after, _ := os.ReadFile(ent)
+			c.Evals(1)
+			c.Cover("no-clobber-store-on-a-damaged-entry")
+			if so.kind == "HARNESS" {
+				fail("harness-child", "%s: %s", ctx, so.msg)
+				restore()
+				return
+			}
+			if so.kind == "OK" || !bytes.Equal(before, after) {
+				fail("no-clobber-replaced-damaged-entry:"+f.name, "%s: Store with no-clobber returned %s and the entry's bytes %s", ctx, so.kind, map[bool]string{true: "are unchanged", false: "were replaced"}[bytes.Equal(before, after)])
+				restore()
+				return
+			}
 		}
 		restore()
 	}
